@@ -534,6 +534,7 @@ func TestC18(t *testing.T) {
 		}
 	})
 	RunProps(t, rpC18())
+	t.Run("giant-32bit", runC18Giant)
 	t.Run("messages", func(t *testing.T) {
 		for _, tn := range MyTypes() {
 			ts := Types[tn]
@@ -556,7 +557,7 @@ func TestC18(t *testing.T) {
 					}
 					seen[id] = true
 					if NSize(tg.ptype) > 2 {
-						Col.Class("uint32-prefixed field (not driven beyond its maximum: would need 4 GiB)", 1)
+						Col.Class("uint32-prefixed field (texts: driven to 2^32 bytes in giant-32bit over zero-page mappings; repeating groups of real elements: not driven, would need 2^32 resident elements)", 1)
 						continue
 					}
 					max := int(NMask(tg.ptype))
